@@ -1308,6 +1308,17 @@ pub fn replay(rp: &Value) -> Result<Option<Violation>, String> {
 				v
 			}))
 		}
+		Some("hostile") => {
+			// the whole case is cheap and deterministic: run it again and report what it reports
+			let seed = rp["case_seed"].as_u64().ok_or("case_seed missing")?;
+			let case = rp["case"].as_u64().unwrap_or(0);
+			let tier = rp["tier"].as_str().unwrap_or("quick").to_string();
+			let r = hostile_case(&tier, seed, case);
+			if let Some(e) = r.harness_error {
+				return Err(e);
+			}
+			Ok(r.violations.into_iter().next())
+		}
 		Some("pibd") => {
 			let seed = rp["case_seed"].as_u64().ok_or("case_seed missing")?;
 			let long = rp["long"].as_bool().unwrap_or(false);
@@ -1841,4 +1852,259 @@ pub fn pibd_net_run(world: &World, seed: u64, tag: &str, faulty: bool, compact_s
 	let _ = std::fs::remove_dir_all(&dir_r);
 	out.violation = result;
 	out
+}
+
+// ------------------------------------------------------------------------------------------
+// scenario D: a hostile peer against the complete node (C11): every message type, valid and
+// mutated, travels through the real conn reader, Codec, Protocol::consume, TrackingAdapter, Peers
+// and NetToChainAdapter handlers up to (not into) chain state
+
+fn refit(frame: &mut Vec<u8>, body_len: u64) {
+	frame[3..11].copy_from_slice(&body_len.to_be_bytes());
+}
+
+/// Length-consistent mutants of a frame (the stream stays in step whatever the node makes of them).
+fn hostile_mutants(name: &str, base: &[u8], rng: &mut SimRng) -> Vec<(String, Vec<u8>)> {
+	let mut out = vec![];
+	let body_len = base.len() - 11;
+	if body_len == 0 {
+		return out;
+	}
+	for _ in 0..4 {
+		let mut f = base.to_vec();
+		let k = rng.range(1, 3);
+		for _ in 0..k {
+			let off = 11 + rng.usize_below(body_len);
+			f[off] ^= 1 << rng.below(8);
+		}
+		out.push(("bitflips".to_string(), f));
+	}
+	let boundary: [u64; 9] = [0, 1, 2, 0xff, 0xffff, 0x1_0000, 0xffff_ffff, 0x1_0000_0000, u64::MAX];
+	for w in [8usize, 8, 8, 4, 4, 2] {
+		if body_len < w {
+			continue;
+		}
+		let off = 11 + rng.usize_below(body_len - w + 1);
+		let val = *rng.pick(&boundary[..]);
+		let mut f = base.to_vec();
+		f[off..off + w].copy_from_slice(&val.to_be_bytes()[8 - w..]);
+		out.push((format!("field{}={:#x}", w * 8, val), f));
+	}
+	for _ in 0..3 {
+		let off = 11 + rng.usize_below(body_len);
+		let mut f = base.to_vec();
+		f[off] = *rng.pick(&[0u8, 1, 2, 7, 0xff]);
+		out.push(("byte".to_string(), f));
+	}
+	if name.ends_with("seg") && body_len >= 41 {
+		for _ in 0..8 {
+			let h = *rng.pick(&[0u8, 5, 8, 9, 11, 13, 14, 15, 16, 31, 62, 63, 64, 65, 127, 128, 255]);
+			let idx = *rng.pick(&[0u64, 1, 2, 3, (1 << 32) + 1, 1 << 63, u64::MAX]);
+			let mut f = base.to_vec();
+			f[11 + 32] = h;
+			f[11 + 33..11 + 41].copy_from_slice(&idx.to_be_bytes());
+			out.push((format!("segid h{} i{}", h, idx), f));
+		}
+	}
+	for _ in 0..2 {
+		let l = rng.range(0, 2048) as usize;
+		let mut f = base[..11].to_vec();
+		refit(&mut f, l as u64);
+		f.extend(rng.bytes(l));
+		out.push((format!("random-body[{}]", l), f));
+	}
+	for _ in 0..2 {
+		let keep = rng.usize_below(body_len);
+		let mut f = base[..11 + keep].to_vec();
+		refit(&mut f, keep as u64);
+		out.push((format!("short-body[{}]", keep), f));
+	}
+	out
+}
+
+pub fn hostile_case(tier: &str, seed: u64, case: u64) -> CaseResult {
+	use grin_core::core::SegmentIdentifier;
+	use grin_p2p::msg::{GetPeerAddrs, SegmentRequest, TxHashSetArchive, TxHashSetRequest};
+	let t0 = Instant::now();
+	let thorough = tier == "thorough";
+	let mut res = CaseResult::new(case, seed);
+	install_panic_recorder();
+	grin_util::verif::set_pacing_off(true);
+	let mut world = match crate::wiresim::build_world(seed, 34) {
+		Ok(w) => w,
+		Err(e) => {
+			res.harness_error = Some(format!("wire world: {}", e));
+			return res;
+		}
+	};
+	let scratch = fresh_dir("nethostile-scratch");
+	let dir = fresh_dir("nethostile");
+	let node = match NetNode::assemble(&dir, world.genesis.clone(), PoolConfig::default(), false) {
+		Ok(n) => n,
+		Err(e) => {
+			res.harness_error = Some(e);
+			return res;
+		}
+	};
+	let winner = world.winner();
+	for id in world.path_to(winner) {
+		if id != 0 {
+			if let Err(e) = node.chain.process_block(world.blocks[id].block.clone(), world.opts) {
+				res.harness_error = Some(format!("node refused honest block #{}: {:?}", id, e));
+				return res;
+			}
+		}
+	}
+	node.take_events();
+	let mut rng = SimRng::new(seed).fork("net-hostile");
+	let v = ProtocolVersion::local();
+	let ah = node.chain.txhashset_archive_header().map(|h| h.hash()).unwrap_or(node.genesis);
+	// one run in three: the node believes it is in state sync, so unsolicited segments reach a desegmenter
+	let pibd_status = case % 3 == 1;
+	if pibd_status {
+		if let Ok(h) = node.chain.txhashset_archive_header_header_only() {
+			node.sync.update_pibd_progress(false, false, 0, 1, &h);
+			res.probe("node_in_pibd_status");
+		}
+	}
+	let (wtd, wh) = (world.blocks[winner].total_difficulty, world.blocks[winner].height);
+	let mut next_id = 0usize;
+	let mut peer = match connect_inbound(&node, next_id, wtd, wh, Capabilities::default()) {
+		Ok(p) => p,
+		Err(e) => {
+			res.harness_error = Some(e);
+			return res;
+		}
+	};
+	// the message list: the wire corpus (every type), real segment answers, and requests / answers
+	// that decode fine but name things that are not there
+	let mut msgs: Vec<(String, Vec<u8>)> = vec![];
+	let mut all = crate::wiresim::corpus(&world, v, &mut rng);
+	all.extend(crate::wiresim::segment_msgs(&world, v, &mut rng));
+	all.push(crate::wiresim::headers_msg(&world, 2, v));
+	for m in &all {
+		msgs.push((m.name.clone(), crate::wiresim::frame(m, v, &scratch)));
+	}
+	let rh = Hash::from_vec(&rng.bytes(32));
+	msgs.push(("getheaders-unknown".into(), frame_of(Type::GetHeaders, Locator { hashes: (0..20).map(|_| Hash::from_vec(&rng.bytes(32))).collect() }, v)));
+	msgs.push(("getheaders-empty".into(), frame_of(Type::GetHeaders, Locator { hashes: vec![] }, v)));
+	msgs.push(("getheaders-genesis".into(), frame_of(Type::GetHeaders, Locator { hashes: vec![node.genesis] }, v)));
+	msgs.push(("getblock-unknown".into(), frame_of(Type::GetBlock, rh, v)));
+	msgs.push(("getcompactblock-unknown".into(), frame_of(Type::GetCompactBlock, rh, v)));
+	msgs.push(("gettx-unknown".into(), frame_of(Type::GetTransaction, rh, v)));
+	msgs.push(("txkernel-unknown".into(), frame_of(Type::TransactionKernel, rh, v)));
+	msgs.push(("txhashsetrequest-unknown".into(), frame_of(Type::TxHashSetRequest, TxHashSetRequest { hash: rh, height: 0 }, v)));
+	msgs.push(("txhashsetrequest-archive".into(), frame_of(Type::TxHashSetRequest, TxHashSetRequest { hash: ah, height: 20 }, v)));
+	msgs.push(("getpeeraddrs".into(), frame_of(Type::GetPeerAddrs, GetPeerAddrs { capabilities: Capabilities::all() }, v)));
+	msgs.push(("ping-max".into(), frame_of(Type::Ping, Ping { total_difficulty: Difficulty::from_num(u64::MAX), height: u64::MAX }, v)));
+	for (ty, name) in [
+		(Type::GetOutputBitmapSegment, "getbitmapseg"),
+		(Type::GetOutputSegment, "getoutputseg"),
+		(Type::GetRangeProofSegment, "getrproofseg"),
+		(Type::GetKernelSegment, "getkernelseg"),
+	] {
+		for height in [0u8, 7, 9, 11, 13, 15, 16, 63, 64, 255] {
+			for idx in [0u64, 1, u64::MAX] {
+				let bh = if idx == 1 { rh } else { ah };
+				msgs.push((format!("{} h{} i{}", name, height, idx), frame_of(ty, SegmentRequest { block_hash: bh, identifier: SegmentIdentifier { height, idx } }, v)));
+			}
+		}
+	}
+	msgs.push(("txhashsetarchive-unsolicited-0".into(), frame_of(Type::TxHashSetArchive, TxHashSetArchive { hash: ah, height: 20, bytes: 0 }, v)));
+	msgs.push(("txhashsetarchive-unsolicited-huge".into(), frame_of(Type::TxHashSetArchive, TxHashSetArchive { hash: ah, height: 20, bytes: 1 << 40 }, v)));
+	let mut log: Vec<String> = vec![format!("seed {} pibd_status {}", seed, pibd_status)];
+	let n_mut = if thorough { 3 } else { 1 };
+	let mut violation: Option<Violation> = None;
+	'outer: for (name, base) in msgs.iter() {
+		let mut variants: Vec<(String, Vec<u8>)> = vec![("valid".to_string(), base.clone())];
+		for _ in 0..n_mut {
+			variants.extend(hostile_mutants(name, base, &mut rng));
+		}
+		for (what, f) in variants {
+			if !peer.alive {
+				next_id += 1;
+				peer.close();
+				peer = match connect_inbound(&node, next_id, wtd, wh, Capabilities::default()) {
+					Ok(p) => p,
+					Err(e) => {
+						violation = Some(viol("C11", "reconnect-failed", format!("after {} {}: {}", name, what, e)));
+						break 'outer;
+					}
+				};
+				res.probe("net_hostile_reconnects");
+			}
+			crate::alloc::reset();
+			peer.send_bytes(&f);
+			let r = barrier(std::slice::from_mut(&mut peer), Some(0));
+			let (_peak, max_req) = crate::alloc::stats();
+			res.runs += 1;
+			res.steps += 1;
+			res.fault(&format!("net-hostile:{}", what.split(|c: char| c == ' ' || c == '=' || c == '[').next().unwrap_or("")));
+			let replay = json!({"engine": "netsim", "mode": "hostile", "property": "C11", "case_seed": seed, "case": case, "tier": tier, "message": name, "variant": what, "frame": crate::rng::hex(&f[..f.len().min(4096)])});
+			if let Some(p) = take_panics().first() {
+				let mut v = viol("C11", &format!("node-thread-panicked:{}", name.split(' ').next().unwrap_or("")), format!("message {} ({}): {}", name, what, p));
+				v.replay = replay;
+				violation = Some(v);
+				break 'outer;
+			}
+			if let Err(e) = r {
+				let mut v = viol("C11", &format!("node-hung:{}", name.split(' ').next().unwrap_or("")), format!("message {} ({}): {}", name, what, e));
+				v.replay = replay;
+				violation = Some(v);
+				break 'outer;
+			}
+			let bound = 2 * f.len() + 16 * f.len() + (4 << 20);
+			if max_req > bound {
+				let mut v = viol("C11", &format!("node-over-allocation:{}", name.split(' ').next().unwrap_or("")), format!("message {} ({}, {} bytes): a single allocation of {} bytes while the node handled it", name, what, f.len(), max_req));
+				v.replay = replay;
+				violation = Some(v);
+				break 'outer;
+			}
+			let inbox: Vec<String> = std::mem::take(&mut peer.inbox).iter().map(describe).map(|d| d.split('(').next().unwrap_or("").to_string()).collect();
+			if !inbox.is_empty() {
+				res.probe("net_hostile_node_answered");
+			}
+			if !peer.alive {
+				res.probe("net_hostile_connection_closed_by_node");
+			}
+			log.push(format!("{} {} -> alive {} answers {:?} att {}", name, what, peer.alive, inbox, peer.attachment.len()));
+			peer.attachment.clear();
+		}
+	}
+	// the node is still a working node: an honest peer connects and is answered
+	if violation.is_none() {
+		peer.close();
+		match connect_inbound(&node, next_id + 1, wtd, wh, Capabilities::default()) {
+			Ok(mut p) => {
+				p.send(Type::GetBlock, world.blocks[winner].hash);
+				let r = barrier(std::slice::from_mut(&mut p), Some(0));
+				let got = p.inbox.iter().any(|m| matches!(m, Message::Block(_)));
+				if r.is_err() || !got {
+					violation = Some(viol("C11", "node-unresponsive-afterwards", format!("after the hostile traffic an honest peer's GetBlock for the head was not answered ({:?})", r)));
+				} else {
+					res.probe("net_hostile_node_alive_afterwards");
+				}
+				p.close();
+			}
+			Err(e) => violation = Some(viol("C11", "node-unresponsive-afterwards", e)),
+		}
+		if let Some(p) = take_panics().first() {
+			violation = Some(viol("C11", "node-thread-panicked:late", p.clone()));
+		}
+	}
+	res.probe("netsim_runs");
+	res.run_digests.push((fnv64(log.join("\n").as_bytes()), true));
+	res.samples.push(json!({"engine": "netsim-hostile", "messages": msgs.len(), "log_head": log.iter().take(6).cloned().collect::<Vec<_>>()}));
+	if let Some(v) = violation {
+		res.violations.push(v);
+	}
+	peer.close();
+	node.shutdown();
+	drop(peer);
+	drop(node);
+	let _ = std::fs::remove_dir_all(&dir);
+	let _ = std::fs::remove_dir_all(&scratch);
+	world.cleanup();
+	res.wall_s = t0.elapsed().as_secs_f64();
+	res
 }
